@@ -232,7 +232,22 @@ class Ctx:
         log("%s %s: %d evaluations, %d states, %d traces validated, %d known, %d violations, %.0fs" % (
             self.prop, self.tier, self.evaluations, self.states, self.traces_validated, len(self.known),
             len(self.violations), time.time() - self.t0))
+        # coverage floor: a run that validated far fewer traces than this check does on the unchanged tree has gone (partly) blind - cases
+        # dropped as rejected / unsupported / undefined instead of compared. That is not a verdict (exit 2), never a silent pass.
+        if not self.violations:
+            fl = load_floors().get(self.prop, {}).get(self.tier)
+            if fl and self.traces_validated < fl:
+                raise Infra("%s %s validated %d traces, fewer than the floor of %d recorded for the unchanged tree (lib/floors.json): dropped = %r"
+                            % (self.prop, self.tier, self.traces_validated, fl, self.dropped))
         return 1 if self.violations else 0
+
+
+def load_floors():
+    p = os.path.join(VERIF, "lib", "floors.json")
+    if os.path.exists(p):
+        with open(p) as f:
+            return json.load(f)
+    return {}
 
 
 def read_ndjson(path):
